@@ -14,7 +14,6 @@ package main
 import (
 	"fmt"
 	"os"
-	"runtime/pprof"
 	"sort"
 	"strings"
 	"sync"
@@ -534,16 +533,11 @@ func main() {
 		{name: "unexpected-eof", what: "Reader and chunk-reader constructors whose source ends with io.ErrUnexpectedEOF instead of io.EOF (truncated flate/zstd/HTTP input).", alphabet: ab, ctors: []string{"reader", "chunk"}, finals: []string{"EUNEXP"}, consMode: "main", maxPieces: pieces, perLen: unexpCfg},
 		{name: "proto", what: "ToProto on all three constructors; the alphabet is chosen so that many contents are valid encodings (0x08 0x01 = field 1 varint 1) and many are not (a lone 0x08 is truncated).", alphabet: "\x08\x01", ctors: []string{"slice", "reader", "chunk"}, finals: []string{"EOF", "EIO"}, consMode: "proto", maxPieces: 2, perLen: protoCfg},
 	}
-	if pf := os.Getenv("C09_CPUPROFILE"); pf != "" {
-		f, _ := os.Create(pf)
-		pprof.StartCPUProfile(f)
-	}
 	for _, p := range plans {
 		if r.Want(p.name) {
 			runPlan(r, p)
 		}
 	}
-	pprof.StopCPUProfile()
 	if os.Getenv("C09_COUNT") != "" {
 		os.Exit(0)
 	}
